@@ -50,6 +50,10 @@ func isOneOf [C04, C14]
 
 // INDUCTION HYPOTHESIS for sub-expressions: Evaluate returns the visitor's result register; errors in the operand
 // only ever set the Faulty flag
+// C16, package-wide: nothing that can deliver a diagnostic (or descends into a sub-tree that can) is called from inside
+// a loop that ranges over a map - the sequence of diagnostics is then the same on every run
+ordered err errExpr errExpected visit Evaluate EvaluateSilent [C16]
+
 // speculative ("silent") evaluation leaves no trace in the failure state: the flag, the panic mode and the handler are
 // what they were - so a module is faulty afterwards exactly if it was before
 func (*Typechecker).EvaluateSilent [C07]
